@@ -266,6 +266,25 @@ func profileConfig(p string, seed uint64) RunConfig {
 		// of 1..4 (Gen.wid)
 		c.WideIDs = true
 	}
+	switch p {
+	case "C01", "C03", "C08", "C09", "C10", "C11", "C12", "C15":
+		// size is a dimension of the input space: one run in sixteen has sessions with tens
+		// to hundreds of URRs (one tick, one kernel batch, one response then carries that many
+		// usage reports), one in sixteen (C03, C15) measurement periods of minutes to days
+		if seed%16 == 9 && !c.FreeRun && c.KernLatency == 0 && c.MaxRetrans < 10 && !c.faultOn("dp-perio") {
+			// (not together with refused URR removals: the periodic oracles judge around ONE
+			// URR whose removal was refused; a refused removal inside the teardown of a
+			// session with a hundred URRs, the SEID then re-used by another such session, is
+			// outside what C03/C15 quantify over)
+			c.Wide = true
+			c.Steps += 25
+		}
+		if (p == "C03" || p == "C15") && seed%16 == 7 && seed%3 != 0 && c.LogYield == 0 {
+			// (not in the mass / accumulation / overtake variants, whose scenarios create
+			// URRs with periods of seconds: a day of one-second ticks is 86 400 of them)
+			c.LongPeriods = true
+		}
+	}
 	if (p == "C15" || p == "C03") && seed%8 == 3 && len(c.Faults) == 0 && c.KernLatency == 0 && c.LogYield == 0 {
 		// the periodic server kept inside one tick while registrations change and further
 		// ticks fall due: what it finds queued afterwards must be served in order
@@ -428,6 +447,9 @@ func newGen(s *Sim) *Gen {
 		case "C10", "C11", "C12":
 			g.w["cycle"] = 4
 		}
+	}
+	if s.cfg.Wide {
+		g.w["widesess"] = 8
 	}
 	if s.cfg.Overtake {
 		// the periodic server kept inside one tick while registrations change and further
@@ -787,7 +809,7 @@ func (g *Gen) rule(kind string, id uint32, update bool) RuleIntent {
 			t &^= 1
 			if g.perioOK && g.chance(0.5) {
 				t |= 1
-				r.Period = u32p(uint32(pick(g.rng, 1, 2, 3, 5, 10)))
+				r.Period = u32p(g.somePeriod())
 				if g.s.cfg.Profile == "C07" && g.chance(0.25) {
 					r.Period = u32p(uint32(pick(g.rng, 0, 0, 0xffffffff, 0x80000000))) // extreme values
 				}
@@ -1320,6 +1342,87 @@ func (g *Gen) one() (Action, bool) {
 			return Action{Op: "send", SMF: m.Idx, Msg: &MsgIntent{T: "mod", Seq: g.seq(m), Slot: slot}}, true
 		}
 		return Action{Op: "send", SMF: m.Idx, Msg: &MsgIntent{T: pick(g.rng, "hb", "assoc"), Seq: g.seq(m)}}, true
+	case "widesess":
+		// a session with many URRs: one tick, one kernel batch, one response then carries
+		// tens to hundreds of usage reports (message sizes, per-message caps, batch limits)
+		if g.liveOf(m, slot) != nil {
+			return Action{Op: "send", SMF: m.Idx, Msg: &MsgIntent{T: "del", Seq: g.seq(m), Slot: slot}}, true
+		}
+		n := pick(g.rng, 13, 17, 18, 25, 40, 57, 60, 113, 129, 130, 200)
+		per := uint32(pick(g.rng, 1, 2, 3))
+		if g.chance(0.3) {
+			per = 0 // mixed periods and non-periodic URRs
+		}
+		// a kernel batch over many of its URRs
+		g.pending = append(g.pending, func() (Action, bool) {
+			x := g.liveOf(m, slot)
+			if x == nil {
+				return Action{}, false
+			}
+			urrs := sortedRefs(x.Req, "urr")
+			k := len(urrs)
+			if k > 40 {
+				k = 13 + g.intn(28)
+			}
+			var items []KRepItem
+			for _, i := range g.rng.Perm(len(urrs))[:k] {
+				bit := 1 + g.intn(15)
+				items = append(items, KRepItem{SMF: m.Idx, Slot: slot, URR: urrs[i], Cause: 1 << uint(bit)})
+			}
+			return Action{Op: "krep", KRep: items}, len(items) > 0
+		})
+		// ticks
+		for i, k := 0, g.intn(3); i < k; i++ {
+			g.pending = append(g.pending, func() (Action, bool) {
+				return Action{Op: "adv", Ms: int64(pick(g.rng, 1000, 2000, 3000)) + int64(g.intn(40))}, true
+			})
+		}
+		if !s.cfg.AutoAnswer {
+			// the requests of those ticks time out and are retransmitted
+			g.pending = append(g.pending, func() (Action, bool) { return Action{Op: "adv", Ms: RT + int64(g.intn(20))}, true })
+		}
+		// many URRs queried, detached or removed by one request
+		g.pending = append(g.pending, func() (Action, bool) {
+			x := g.liveOf(m, slot)
+			if x == nil {
+				return Action{}, false
+			}
+			urrs := sortedRefs(x.Req, "urr")
+			in := &MsgIntent{T: "mod", Seq: g.seq(m), Slot: slot}
+			switch g.intn(3) {
+			case 0:
+				in.Query = urrs
+			case 1:
+				for _, u := range urrs[:len(urrs)/2] {
+					in.Remove = append(in.Remove, RuleRef{"urr", u})
+				}
+			default:
+				return Action{Op: "send", SMF: m.Idx, Msg: &MsgIntent{T: "del", Seq: g.seq(m), Slot: slot}}, true
+			}
+			return Action{Op: "send", SMF: m.Idx, Msg: in}, true
+		})
+		in := g.perioEst(m, slot, n, per)
+		if pr := s.cfg.Profile; pr == "C08" || pr == "C09" {
+			// profiles whose workload has no periodic reporting (hours of idle clock, "all
+			// retries are over" checks): the many URRs report on thresholds only
+			for i := range in.Create {
+				if r := &in.Create[i]; r.Kind == "urr" {
+					t := uint32(2)
+					r.Trigger, r.Period, r.VolTh = &t, nil, &VolIntent{Flags: 1, Tot: 1000000}
+				}
+			}
+		}
+		// the PDR names a handful of the URRs, not only the first
+		for i := range in.Create {
+			if in.Create[i].Kind == "pdr" {
+				var ids []uint32
+				for _, j := range g.rng.Perm(n)[:1+g.intn(6)] {
+					ids = append(ids, uint32(j+1))
+				}
+				in.Create[i].URRIDs = ids
+			}
+		}
+		return Action{Op: "send", SMF: m.Idx, Msg: in}, true
 	case "repflood":
 		// many reports left unanswered at once, then the retransmission interval: every
 		// one of them is sent again, the oldest after all the others were encoded
@@ -1444,6 +1547,9 @@ func (g *Gen) one() (Action, bool) {
 	case "advshort":
 		return Action{Op: "adv", Ms: int64(pick(g.rng, 500, 1000, 1500, 3100))}, true
 	case "advp":
+		if s.cfg.LongPeriods {
+			return Action{Op: "adv", Ms: int64(pick(g.rng, 300, 301, 600, 3600, 3605, 86100, 86400, 7200, 900))*1000 + int64(g.intn(50))}, true
+		}
 		return Action{Op: "adv", Ms: int64(pick(g.rng, 1000, 2000, 3000, 5000, 10000, 500, 30000))}, true
 	case "fault":
 		if g.s.cfg.faultOn("dp-far") {
@@ -1627,6 +1733,16 @@ func (g *Gen) kbuf() (Action, bool) {
 // special: profile-specific actions.
 func (g *Gen) special() (Action, bool) { return Action{}, false }
 
+// somePeriod: a measurement period from a small set, so that period groups are shared; in a
+// "long periods" run minutes to days, some of them close together (the fake clock makes an
+// hour as cheap as a second).
+func (g *Gen) somePeriod() uint32 {
+	if g.s.cfg.LongPeriods {
+		return uint32(pick(g.rng, 300, 301, 600, 3600, 3605, 86100, 86400))
+	}
+	return uint32(pick(g.rng, 1, 2, 3, 5, 10))
+}
+
 // perioEst: a session with n periodic URRs (ids 1..n), periods from a small set so
 // that groups are shared between sessions.
 func (g *Gen) perioEst(m *SMF, slot int, n int, period uint32) *MsgIntent {
@@ -1636,7 +1752,7 @@ func (g *Gen) perioEst(m *SMF, slot int, n int, period uint32) *MsgIntent {
 	for i := 1; i <= n; i++ {
 		p := period
 		if p == 0 {
-			p = uint32(pick(g.rng, 1, 2, 3, 5, 10))
+			p = g.somePeriod()
 		}
 		t := uint32(1)
 		if g.chance(0.15) && period == 0 {
@@ -1683,7 +1799,7 @@ func (g *Gen) modURR() (Action, bool) {
 		if len(free) == 0 {
 			return Action{}, false
 		}
-		p := uint32(pick(g.rng, 1, 2, 3, 5, 10))
+		p := g.somePeriod()
 		t := uint32(1)
 		meth := uint8(2)
 		if g.chance(0.2) {
